@@ -52,6 +52,8 @@ type vectorSelector struct {
 	// selectTimestamp makes the selector yield the timestamp of the selected
 	// sample, in seconds, instead of its value: timestamp(<vector selector>).
 	selectTimestamp bool
+	// pinnedAt, if set, is the time the selector reads at every step.
+	pinnedAt *int64
 }
 
 // NewVectorSelector creates operator which selects vector of series.
@@ -80,6 +82,21 @@ func NewVectorSelector(
 		shard:     shard,
 		numShards: numShards,
 	}
+}
+
+// NewPinnedTimestampSelector creates the operator for timestamp(<vector selector> @ t):
+// the Prometheus engine reads that selector at t itself at every step, also where
+// the selector is not evaluated once for all steps (the parameter of an aggregation).
+func NewPinnedTimestampSelector(
+	pool *model.VectorPool,
+	selector engstore.SeriesSelector,
+	queryOpts *query.Options,
+	at int64,
+	shard, numShards int,
+) model.VectorOperator {
+	o := NewVectorSelector(pool, selector, queryOpts, 0, shard, numShards, true).(*vectorSelector)
+	o.pinnedAt = &at
+	return o
 }
 
 func (o *vectorSelector) Explain() (me string, next []model.VectorOperator) {
@@ -124,7 +141,11 @@ func (o *vectorSelector) Next(ctx context.Context) ([]model.StepVector, error) {
 			if len(vectors) <= currStep {
 				vectors = append(vectors, o.vectorPool.GetStepVector(seriesTs))
 			}
-			t, v, ok, err := selectPoint(series.samples, seriesTs, o.lookbackDelta, o.offset)
+			readAt := seriesTs
+			if o.pinnedAt != nil {
+				readAt = *o.pinnedAt
+			}
+			t, v, ok, err := selectPoint(series.samples, readAt, o.lookbackDelta, o.offset)
 			if err != nil {
 				return nil, err
 			}
